@@ -394,6 +394,62 @@ class ConfigNegatives(Part):
         return res
 
 
+class Spellings(Part):
+    name = "command_line_spellings_against_the_config_file"
+    desc = "every valued option given in the config file and, with a conflicting value, on the command line in every spelling the parser accepts (separate, attached, =, abbreviated): the command line wins"
+
+    def __init__(self, tier, seed):
+        self.tier, self.seed = tier, seed
+
+    def cases(self):
+        return [{"opt": n} for n in sorted(OPTS) if OPTS[n][2] is not True and n not in ("dump-ip-map",)]
+
+    def run(self, case):
+        res = Res()
+        box = Box()
+        try:
+            n = case["opt"]
+            cli, key, a, b = OPTS[n]
+            longname = "--" + key
+            spellings = {"separate": [cli, a], "long-separate": [longname, a], "long-equals": [longname + "=" + a],
+                         "abbreviated": [longname[:-2], a], "abbreviated-equals": [longname[:-2] + "=" + a]}
+            if not cli.startswith("--"):
+                spellings["attached"] = [cli + a]
+                spellings["short-equals"] = [cli + "=" + a]
+            base = ["-i", "{in}", "-o", "{out}"]
+            need = ["-a"] + (["-s", "saltForTest"] if n != "salt" else [])
+            d0 = box.fresh()
+            ref = run_main(d0, base + need + [cli, a])
+            shutil.rmtree(d0, ignore_errors=True)
+            if ref[0] != "ok":
+                res.violation("reference-vector-rejected", "argv %r -> %s" % (base + need + [cli, a], ref[0]), case)
+                return res
+            for sp, words in spellings.items():
+                if "sp" in case and case["sp"] != sp:
+                    continue
+                for with_cfg in (False, True):
+                    res.evals += 1
+                    d = box.fresh()
+                    argv = base + need + words + (["-c", "{cfg}"] if with_cfg else [])
+                    got = run_main(d, argv, "%s = %s\n" % (key, b) if with_cfg else None)
+                    shutil.rmtree(d, ignore_errors=True)
+                    res.out((sp, with_cfg, got[0], digest_tree(got[1])))
+                    if got[0] != "ok" and not with_cfg:
+                        res.count("spelling_not_accepted_by_parser")   # not a spelling of this parser: skip its config variant
+                        break
+                    res.nt((n, sp, with_cfg))
+                    if got[0] != ref[0] or got[1] != ref[1]:
+                        res.violation("%s|%s|%s" % ("command-line-does-not-win" if with_cfg else "spelling-changes-the-result", n, sp),
+                                      "argv %r%s gives %s/%s; canonical spelling without config %s/%s" % (
+                                          argv, " with config %r" % ("%s = %s" % (key, b)) if with_cfg else "", got[0],
+                                          digest_tree(got[1]), ref[0], digest_tree(ref[1])), {"opt": n, "sp": sp})
+            if "sp" not in case:
+                res.samples.append({"option": n, "spellings": sorted(spellings)})
+        finally:
+            box.close()
+        return res
+
+
 def digest_tree(t):
     from mc.runner import digest
 
@@ -523,4 +579,4 @@ class Equivalences(Part):
 
 
 def parts(tier, seed):
-    return [Validation(tier, seed), Placement(tier, seed), Equivalences(tier, seed), ConfigNegatives(tier, seed)]
+    return [Validation(tier, seed), Placement(tier, seed), Equivalences(tier, seed), ConfigNegatives(tier, seed), Spellings(tier, seed)]
